@@ -20,6 +20,7 @@ CLAIMED = {
     'C02': ('kernel', 'deterministic simulation: seeded schedules + history oracle (interval/timestep algebra)', '5/C02'),
     'C03': ('kernel', 'deterministic simulation: clock-trace invariants + deterministic backward-jump budget for termination', '5/C03'),
     'C04': ('kernel', 'deterministic simulation: per-instant snapshot invariant over the event log + metamorphic re-run under seeded permutation of every listing order', '5/C04'),
+    'C05': ('steps', 'deterministic simulation: phase grammar over the event log (random flow DAGs, derivers, steps deleting/generating compartments), token visibility per dependency edge', '5/C05'),
     'C12': ('kernel', 'deterministic simulation: recording emitter vs state snapshots and batch times; emit_step differential', '5/C12'),
 }
 
